@@ -102,6 +102,37 @@ namespace
         }
     };
 
+    using FbList = TSL<TS<Int>, 2>;
+    using FbBundle = TSB<"C08FbBundle", Field<"a", TS<Int>>, Field<"b", TS<Int>>>;
+    struct WTsl : WriterBase<WTsl>   // ops "<index>=<value>": elements may get their first value in different cycles
+    {
+        static constexpr auto name = "c08_w_tsl";
+        static void start(NodeScheduler sched, Scalar<"id", Int> id) { do_start(sched, id.value()); }
+        static void eval(NodeScheduler sched, Scalar<"id", Int> id, DateTime now, Out<FbList> out)
+        {
+            const long c = rel(now);
+            const std::string &ops = g->script[static_cast<int>(id.value())].at(static_cast<std::size_t>(c));
+            for (auto &op : split(ops, ',')) if (!op.empty()) out.set(static_cast<std::size_t>(op[0] - '0'), Int{std::stol(op.substr(2))});
+            rearm(sched, id.value(), c);
+        }
+    };
+    struct WTsb : WriterBase<WTsb>
+    {
+        static constexpr auto name = "c08_w_tsb";
+        static void start(NodeScheduler sched, Scalar<"id", Int> id) { do_start(sched, id.value()); }
+        static void eval(NodeScheduler sched, Scalar<"id", Int> id, DateTime now, Out<FbBundle> out)
+        {
+            const long c = rel(now);
+            const std::string &ops = g->script[static_cast<int>(id.value())].at(static_cast<std::size_t>(c));
+            for (auto &op : split(ops, ','))
+            {
+                if (op.empty()) continue;
+                if (op[0] == '0') out.field<"a">().set(Int{std::stol(op.substr(2))}); else out.field<"b">().set(Int{std::stol(op.substr(2))});
+            }
+            rearm(sched, id.value(), c);
+        }
+    };
+
     /** Canonical text of a value/delta: items of every innermost {...} group are sorted (sets and dicts are unordered). */
     std::string canon(const std::string &in)
     {
@@ -145,6 +176,8 @@ namespace
     }
     struct PTs  { static constexpr auto name = "c08_p_ts";  static void eval(In<"a", TS<Int>> a, Scalar<"id", Int> id, DateTime now) { log_probe(id.value(), a.base(), now); } };
     struct PTss { static constexpr auto name = "c08_p_tss"; static void eval(In<"a", TSS<Int>> a, Scalar<"id", Int> id, DateTime now) { log_probe(id.value(), a.base(), now); } };
+    struct PTsl { static constexpr auto name = "c08_p_tsl"; static void eval(In<"a", FbList, InputActivity::Active, InputValidity::Unchecked> a, Scalar<"id", Int> id, DateTime now) { log_probe(id.value(), a.base(), now); } };
+    struct PTsb { static constexpr auto name = "c08_p_tsb"; static void eval(In<"a", FbBundle, InputActivity::Active, InputValidity::Unchecked> a, Scalar<"id", Int> id, DateTime now) { log_probe(id.value(), a.base(), now); } };
     struct PTsd { static constexpr auto name = "c08_p_tsd"; static void eval(In<"a", TSD<Int, TS<Int>>> a, Scalar<"id", Int> id, DateTime now) { log_probe(id.value(), a.base(), now); } };
 
     // ---- loop body: out = ts + fb (fb may be invalid before the first delivery) -----------------------------
@@ -264,6 +297,24 @@ namespace
                 fb(wr);
                 wire<PTss>(w, wr, Int{1});
                 wire<PTss>(w, fb(), Int{2});
+                expects.push_back(Expect{1, 2});
+            }
+            else if (tmpl == "tsl")
+            {
+                auto wr = wire<WTsl>(w, Int{0});
+                auto fb = stdlib::feedback<FbList>(w);
+                fb(wr);
+                wire<PTsl>(w, wr, Int{1});
+                wire<PTsl>(w, fb(), Int{2});
+                expects.push_back(Expect{1, 2});
+            }
+            else if (tmpl == "tsb")
+            {
+                auto wr = wire<WTsb>(w, Int{0});
+                auto fb = stdlib::feedback<FbBundle>(w);
+                fb(wr);
+                wire<PTsb>(w, wr, Int{1});
+                wire<PTsb>(w, fb(), Int{2});
                 expects.push_back(Expect{1, 2});
             }
             else if (tmpl == "tsd")
@@ -473,6 +524,13 @@ void verif_enumerate(verif::Ctx &ctx)
     run_all("tsi", ts_scripts);
     run_all("tss", tss_scripts);
     run_all("tsd", tsd_scripts);
+    {
+        // structured feedback edges: elements / fields get their first value in different cycles, or never
+        std::vector<std::string> struct_scripts;
+        gen_scripts({"", "0=1", "1=2", "0=3", "0=4,1=5"}, th ? 5 : 4, struct_scripts);
+        run_all("tsl", struct_scripts);
+        run_all("tsb", struct_scripts);
+    }
     run_all("self", ts_scripts);
     run_all("selfp", ts_scripts);
     run_all("nopen", ts_scripts);
